@@ -12,12 +12,30 @@ positive but **not** always at least `MIN_COST` — `enforce_strictly_positive` 
 `≤ 0`, a positive total below the floor is charged as it is (`charged_below_floor_witness`).  The
 property text only asks for strict positivity, which is what is proved.
 
+The charged edge total and the per-turn surcharge (§3b): the property's formula for "the cost charged
+for accessing plus traversing the edge" lists the per-turn surcharges; `EdgeTraversal::total_cost()`
+never contains them.  `edge_total_sum_formula_partial` (full statement in its docstring) holds when the
+weighted per-turn surcharge of the pair is zero; `edge_total_excludes_turn_surcharge` and
+`edge_total_ignores_turn_tables` say what the code does for all inputs;
+`edge_total_sum_formula_counterexample` is the witness (finding
+`edge_traversal/turn-surcharge-not-charged`).  Positivity of the total (§1) is unaffected.
+
 Second part (§9–§16, model `Compass/Model/CostIO.lean`): the order of `Cost` (`OrderedFloat`,
 `ReverseCost`), `agg_iter` with `Err` items, `forward_traversal` / `reverse_traversal` with every error
 arm, `serialize_cost` / `serialize_cost_info`, the serde form of the rate enums, `CostModelBuilder` /
 `CostModelService`, `NetworkCostRateBuilder`.  Findings there: two repaired (`fixed:` 4844235, dac0f5c),
 four recorded (`known:` keys `cost_rate_serde/*`, `serialize_cost*/feature-named-*`), each with a
 `_partial` theorem and a `_counterexample`.
+
+Modelled rather than verified (the theorems do not speak about these; the differential run does):
+`f64` rounding / overflow / NaN (the NaN arms of the `OrderedFloat` order are in the model and compared
+bit for bit, but over a field `cost_cmp_spec` only says the order is the order); lookup tables are
+association lists with unique keys standing for `HashMap`s (iteration order never observed; the
+harness sorts what came out of one); the serde decisions of §13 are a model of what `serde` 1.0 /
+`serde_json` 1.0 do with these enum shapes, taken from observed behaviour, not from serde's source;
+CSV / gzip decoding of lookup files is abstracted (the case carries the decoded rows, as in C15);
+in `forward_traversal` / `reverse_traversal` the access and traversal models are scripted (they leave
+a prescribed state or fail), the graph is reduced to "edge exists / end vertex exists".
 
 Notation (`Proofs/Cost.lean`): `m.wt i`, `m.vr i`, `m.nr i` are the weight, vehicle rate and network
 rate of state index `i`; `stateDelta prev next i = next[i] − prev[i]`; `m.InRangeV prev next` says
@@ -120,7 +138,8 @@ theorem traversal_cost_ge (m : CostModel α) (e : Nat) (prev next : List α) (s 
   · intro hn; simp [not_lt.mpr hn] at h; exact h.symm
 
 /-- `EdgeTraversal::total_cost()`: `access + (total − access)` is the traversal total, whatever the
-access share (the per-turn surcharge enters the access share and is cancelled in the traversal share) -/
+access share.  Consequence (a finding, §3b): a per-turn surcharge enters the access share, is cancelled
+in the traversal share and is never part of the charged total. -/
 theorem edge_total_eq (access total : α) : edgeTotalCost access total = total := by
   unfold edgeTotalCost; ring
 
@@ -335,6 +354,81 @@ theorem sum_formula_estimate_clip (m : CostModel α) (hs : m.agg = .sum) (src ds
     rw [cost_estimate_eq, hv] at h
     simp only [Option.map_some, Option.some.injEq] at h
     rw [← h, sum_formula_estimate m hs src dst v hv]
+
+/-! ### 3b. The charged edge total and the per-turn surcharge -/
+
+/-- What `total_cost()` of the record is, for ALL inputs (sum aggregation): the floored sum of the
+weighted rated state changes (over the whole step `prev → next`, access included) and the per-EDGE
+surcharges.  The per-turn surcharge of the pair is not in it. -/
+theorem edge_total_excludes_turn_surcharge (m : CostModel α) (hs : m.agg = .sum) (trav : Nat)
+    (pair : Option (Nat × Nat)) (prev accessed next : List α) (r : α × α)
+    (h : m.edgeTraversal trav pair prev accessed next = some r) :
+    let s := (m.indices.map fun i => m.wt i * (m.vr i).mapValue (stateDelta prev next i)).sum
+      + (m.indices.map fun i => m.wt i * (m.nr i).traversalCost trav).sum
+    (0 < s → edgeRecordTotal r = s) ∧ (s ≤ 0 → edgeRecordTotal r = minCost) :=
+  sum_formula m hs trav prev next (edgeRecordTotal r) (edge_record_total_pos m trav pair prev accessed next r h).1
+
+/-- C07 (sum formula of the charged edge total), PARTIAL.
+Full statement (the property): under sum aggregation the cost charged for accessing plus traversing
+the edge — `total_cost()` of the record — equals
+`S = Σᵢ wᵢ·rateᵢ(Δᵢ) + Σᵢ wᵢ·(per-edge surcharge) + Σᵢ wᵢ·(per-turn surcharge of the edge pair)` when
+`S > 0`, and the floor otherwise.
+Proved only when the weighted per-turn surcharge of the pair is zero (no neighbouring edge, no
+edge-pair table, a pair that misses every table, zero weights).  Excluded: every configuration in
+which the pair hits an edge-pair table with a non-zero weighted value — there the statement is FALSE
+of the code: the surcharge enters `access_cost` and is subtracted again in the traversal share
+(`traversal_cost = total − access_cost`), so `total_cost()` never contains it
+(`edge_total_excludes_turn_surcharge`, `edge_total_ignores_turn_tables`,
+`edge_total_sum_formula_counterexample`; finding `edge_traversal/turn-surcharge-not-charged`). -/
+theorem edge_total_sum_formula_partial (m : CostModel α) (hs : m.agg = .sum) (trav : Nat)
+    (pair : Option (Nat × Nat)) (prev accessed next : List α) (r : α × α)
+    (h : m.edgeTraversal trav pair prev accessed next = some r)
+    (hturn : turnSurcharge m pair = 0) :
+    let S := (m.indices.map fun i => m.wt i * (m.vr i).mapValue (stateDelta prev next i)).sum
+      + (m.indices.map fun i => m.wt i * (m.nr i).traversalCost trav).sum
+      + turnSurcharge m pair
+    (0 < S → edgeRecordTotal r = S) ∧ (S ≤ 0 → edgeRecordTotal r = minCost) := by
+  intro S
+  have := edge_total_excludes_turn_surcharge m hs trav pair prev accessed next r h
+  simp only [S, hturn, add_zero]
+  exact this
+
+/-- A configured per-turn surcharge never reaches the charged edge total, for ALL inputs and BOTH
+aggregations: removing every edge-pair table from the cost model (`dropTurns`) leaves `total_cost()` of
+every record unchanged (and a record exists for the one exactly when it exists for the other) — so
+labels, the frontier order and the route chosen are the same with and without the turn surcharges;
+only the split into access share and traversal share moves. -/
+theorem edge_total_ignores_turn_tables (m : CostModel α) (trav : Nat) (pair : Option (Nat × Nat))
+    (prev accessed next : List α) :
+    (m.dropTurns.edgeTraversal trav pair prev accessed next).map edgeRecordTotal
+      = (m.edgeTraversal trav pair prev accessed next).map edgeRecordTotal := by
+  have ht := m.traversalCost_dropTurns trav prev next
+  unfold CostModel.edgeTraversal
+  cases pair with
+  | none =>
+    simp only [ht]
+  | some pn =>
+    obtain ⟨pe, ne⟩ := pn
+    simp only [ht]
+    have hiff : (m.dropTurns.accessCost pe ne prev accessed).isSome = (m.accessCost pe ne prev accessed).isSome := by
+      rw [Bool.eq_iff_iff, access_cost_isSome_iff, access_cost_isSome_iff]
+      exact Iff.rfl
+    cases ha : m.accessCost pe ne prev accessed with
+    | none =>
+      have : m.dropTurns.accessCost pe ne prev accessed = none := by
+        rw [ha] at hiff; simpa using hiff
+      simp [this]
+    | some a =>
+      have : ∃ a', m.dropTurns.accessCost pe ne prev accessed = some a' := by
+        rw [ha] at hiff; exact Option.isSome_iff_exists.mp (by simpa using hiff)
+      obtain ⟨a', ha'⟩ := this
+      simp only [ha']
+      cases m.traversalCost trav prev next with
+      | none => rfl
+      | some t =>
+        simp only [Option.map_some, edgeRecordTotal, edgeAccessShare, zero_eq, Option.some.injEq]
+        ring
+
 
 /-! ### 4. What the rates denote -/
 
@@ -681,6 +775,37 @@ def exSum : CostModel ℚ :=
 
 /-- the same under mul aggregation, both weights non-zero -/
 def exMul : CostModel ℚ := { exSum with weights := [2, -1], agg := .mul }
+
+/-- finding `edge_traversal/turn-surcharge-not-charged`: `exSum` charges the turn `(1, 3)` a surcharge
+of `4` on a feature of weight `2`.  Entering edge `3` from edge `1` the property's formula gives
+`4 + ½ + 8 = 12½`; `access_cost` is `12`, the traversal share `4½ − 12 = −7½`, and `total_cost()` is
+`4½` — exactly what the cost model without any turn table charges. -/
+theorem edge_total_sum_formula_counterexample :
+    (exSum.edgeTraversal 3 (some (1, 3)) [1, 0] [2, 7] [2, 7]) = some (12, 4 + 1/2 - 12)
+      ∧ (exSum.edgeTraversal 3 (some (1, 3)) [1, 0] [2, 7] [2, 7]).map edgeRecordTotal = some (4 + 1/2)
+      ∧ turnSurcharge exSum (some (1, 3)) = 8
+      ∧ (exSum.indices.map fun i => exSum.wt i * (exSum.vr i).mapValue (stateDelta [1, 0] [2, 7] i)).sum
+          + (exSum.indices.map fun i => exSum.wt i * (exSum.nr i).traversalCost 3).sum
+          + turnSurcharge exSum (some (1, 3)) = 12 + 1/2
+      ∧ (exSum.dropTurns.edgeTraversal 3 (some (1, 3)) [1, 0] [2, 7] [2, 7]).map edgeRecordTotal = some (4 + 1/2)
+      ∧ exSum.dropTurns.accessCost 1 3 [1, 0] [2, 7] = some 4 := by
+  decide +kernel
+
+-- non-vacuity of `edge_total_sum_formula_partial`: a pair that misses the table, and no neighbouring
+-- edge; every hypothesis instantiated, the theorem applied
+example : (exSum.edgeTraversal 3 (some (0, 3)) [1, 0] [2, 7] [2, 7]).map edgeRecordTotal = some (4 + 1/2) := by
+  have h : exSum.edgeTraversal 3 (some (0, 3)) [1, 0] [2, 7] [2, 7] = some (4, 4 + 1/2 - 4) := by decide +kernel
+  have hs : exSum.agg = .sum := rfl
+  have ht : turnSurcharge exSum (some (0, 3)) = 0 := by decide +kernel
+  have := (edge_total_sum_formula_partial exSum hs 3 (some (0, 3)) [1, 0] [2, 7] [2, 7] _ h ht).1
+  have hS : (exSum.indices.map fun i => exSum.wt i * (exSum.vr i).mapValue (stateDelta [1, 0] [2, 7] i)).sum
+      + (exSum.indices.map fun i => exSum.wt i * (exSum.nr i).traversalCost 3).sum
+      + turnSurcharge exSum (some (0, 3)) = 4 + 1/2 := by decide +kernel
+  rw [hS] at this
+  rw [h]
+  simp only [Option.map_some, Option.some.injEq]
+  exact this (by norm_num)
+
 
 -- §1: the functions return on in-range input; positive delta: the formula; the per-turn surcharge
 -- goes to the access cost only, the per-edge surcharge to the traversal cost only
